@@ -79,6 +79,123 @@ TEMPLATE_UNIVERSES = [
 ]
 
 
+# ---- attribute values: the number-like corner of Unicode (parse_params hands every attribute value except style to int())
+NUM_ASCII = ["0", "1", "7", "12", "007", "100", "9" * 30]
+# str.isdigit() but not str.isdecimal(): int() rejects them
+NUM_DIGIT_ONLY = ["²", "³", "¹", "⁰", "⁴", "₂", "①", "⑨", "⓪", "⒈", "❶", "፩",
+                  "፫", "\U00010a40", "\U0001f101"]
+# decimal digits of other scripts (incl. non-BMP): int() accepts them
+NUM_DECIMAL = ["٣", "۴", "३", "１", "\U0001d7ce", "\U00011066", "߁", "๓"]
+# numeric but not digits: fractions, roman / ideographic / circled numbers
+NUM_OTHER = ["½", "¼", "Ⅷ", "ↂ", "〇", "五", "൰", "\U00010107", "㊿", "⅓"]
+NUM_CHARS = NUM_ASCII[:3] + NUM_DIGIT_ONLY + NUM_DECIMAL + NUM_OTHER
+NUM_SIGNS = ["", "", "+", "-", "−", "±", "﹣", "－", "＋", "+-", "--"]
+NUM_SPACES = ["", "", " ", "\t", "\xa0", " ", "　", "​", "\n", "\x0c", "\x1f", "\x85", " "]
+NUM_SUFFIX = ["", "", "", "%", "px", "em", ".5", "e3", "_0", ",0", "x", "_", "#", ":"]
+ATTR_NAMES = ["title", "id", "class", "name", "width", "height", "colspan", "rowspan", "align", "border", "start", "value", "size",
+              "cellpadding", "group", "from", "to", "lang", "widths", "perrow", "Style", "ä", "x1"]
+
+
+def num_value(rng):
+    """sign? number-like chars{1..3} suffix?, with whitespace variants around / after the sign"""
+    pool = rng.choice([NUM_CHARS, NUM_DIGIT_ONLY, NUM_DECIMAL, NUM_OTHER, NUM_ASCII])
+    body = "".join(rng.choice(pool if rng.random() < 0.8 else NUM_CHARS) for _ in range(rng.choice([1, 1, 1, 2, 3])))
+    return (rng.choice(NUM_SPACES) + rng.choice(NUM_SIGNS) + (rng.choice(NUM_SPACES) if rng.random() < 0.1 else "") + body
+            + rng.choice(NUM_SUFFIX) + rng.choice(NUM_SPACES))
+
+
+def quote_value(v, q):
+    """q: 0 = double quotes, 1 = single quotes, 2 = unquoted (the regex then takes the [\\w%:#]+ prefix of the value)"""
+    if q == 0:
+        return '"%s"' % v.replace('"', "")
+    if q == 1:
+        return "'%s'" % v.replace("'", "")
+    return v
+
+
+def num_attr(rng, name=None):
+    return " %s%s=%s%s" % (name or rng.choice(ATTR_NAMES), rng.choice(["", "", " "]), rng.choice(["", "", " "]),
+                           quote_value(num_value(rng), rng.randrange(3)))
+
+
+# every construct whose attributes reach parse_params (utoken._analyze_html_tag, the four table modifier parsers, ParseUniq) or whose
+# option values are parsed as numbers; %(a)s = attribute string (leading space), %(v)s = bare value
+ATTR_CONTEXTS = [
+    ("title", "a <span%(a)s>b</span> c"), ("id", "<div%(a)s>x</div>"), ("value", "<ol%(a)s><li%(a)s>x</li></ol>"), ("size", "<font%(a)s>x</font>"),
+    ("colspan", "<table%(a)s><tr%(a)s><td%(a)s>x</td><th%(a)s>y</th></tr></table>"), ("clear", "x<br%(a)s/>y"),
+    ("width", "{|%(a)s\n|-\n| c\n|}"), ("class", "{|\n|-%(a)s\n| c\n|}"), ("colspan", "{|\n|-\n|%(a)s| c\n!%(a)s| h\n|}"),
+    ("rowspan", "{|\n|-\n|%(a)s| c ||%(a)s| d\n|}"), ("align", "{|\n|+%(a)s| cap\n|-\n| c\n|}"),
+    ("name", "x<ref%(a)s>n</ref> y<ref%(a)s/>"), ("group", "<references%(a)s/>"), ("widths", "<gallery%(a)s>\nImage:x.jpg|c\n</gallery>"),
+    ("line", "<source%(a)s>x</source>"), ("from", "<pages index=I%(a)s to=2 />"), ("compact", "<poem%(a)s>\nx\n</poem>"),
+    ("name", "{{#tag:ref|x|name=%(v)s}}"), ("width", "<imagemap%(a)s>\nImage:x.jpg|%(v)spx\nrect 0 0 %(v)s 1 [[A]]\n</imagemap>"),
+    ("upright", "[[Image:x.jpg|thumb|%(v)spx|upright=%(v)s|c]]"), ("h", "<h2%(a)s>x</h2>"), ("x", "<math%(a)s>x</math><timeline%(a)s>x</timeline>"),
+]
+
+
+def attr_family():
+    """deterministic: every number-like character x every construct that takes attributes, with rotating sign / whitespace / quoting"""
+    out = []
+    k = 0
+    for ch in NUM_CHARS:
+        for name, ctx in ATTR_CONTEXTS:
+            sign = NUM_SIGNS[k % 4]                       # "", "", "+", "-"
+            sp = ["", "", " ", "\t"][(k // 4) % 4]
+            v = sp + sign + ch + sp
+            out.append(ctx % {"a": " %s=%s" % (name, quote_value(v, k % 3)), "v": v.strip()})
+            k += 1
+    return out
+
+
+def attr_case(rng, size):
+    """random: a few constructs with generated number-like attributes, embedded in grammar output"""
+    parts = []
+    for _ in range(rng.randint(1, 4)):
+        name, ctx = rng.choice(ATTR_CONTEXTS)
+        a = "".join(num_attr(rng, name if rng.random() < 0.5 else None) for _ in range(rng.choice([1, 1, 2, 3])))
+        parts.append(ctx % {"a": a, "v": num_value(rng).strip()})
+        if rng.random() < 0.4:
+            parts.append(rng.choice(["\n", " ", "\n\n"]) + inline(rng, 1, size // 4))
+    return rng.choice(["", "\n", "x\n"]).join(parts)
+
+
+# ---- apostrophe runs: compute_path searches per line; its state space grows with the number of runs on ONE line
+def quote_line(opener, lens, words=True, sep=" "):
+    return opener + "".join(("%sw%d%s%s" % (sep, i, sep, "'" * n)) if words else (sep + "'" * n) for i, n in enumerate(lens))
+
+
+QUOTE_OPENERS = ["", "'" * 2, "'" * 3, "'" * 4, "'" * 5]
+
+
+def quote_family():
+    """deterministic: lines with 10..60 runs of one length 2..6 after each kind of (un)balanced opener, plus alternating lengths"""
+    out = []
+    for opener in QUOTE_OPENERS:
+        for k in (10, 20, 40, 60):
+            for n in (2, 3, 4, 5, 6):
+                out.append(quote_line(opener + "a", [n] * k))
+            out.append(quote_line(opener + "a", [5, 3] * (k // 2)))
+            out.append(quote_line(opener + "a", [5, 2, 6, 4] * (k // 4)))
+    return out
+
+
+def quote_case(rng, maxlen):
+    k = rng.choice([10, 14, 18, 24, 32, 40, 60])
+    prof = rng.choice([[5], [5], [2, 3], [2, 3, 5], [2, 3, 4, 5, 6], [5, 6], [4, 5], [3, 5], [2, 5], [5, 5, 5, 3], [6, 7, 9]])
+    lens = [rng.choice(prof) for _ in range(k)]
+    opener = rng.choice(QUOTE_OPENERS + ["* " + "'" * 2, "; " + "'" * 3, "== " + "'" * 3, "{|\n| " + "'" * 3, "[[A|" + "'" * 3, "<b>" + "'" * 2])
+    sep = rng.choice([" ", " ", "", "x"])
+    line = quote_line(opener + "a", lens, words=rng.random() < 0.7, sep=sep)
+    if rng.random() < 0.3:
+        line = line.replace("'" * 5, "{{q5}}")
+    tail = rng.choice(["", "\n", "\n\nnext\n", " =="])
+    return line + tail
+
+
+for _u in TEMPLATE_UNIVERSES:
+    if _u is not None:
+        _u["q5"] = "'" * 5
+
+
 def html_tag(rng, name=None, kind=None):
     name = name or rng.choice(HTML_TAGS + EXT_TAGS)
     kind = kind or rng.choice(["open", "open", "close", "self", "openattr"])
@@ -88,9 +205,10 @@ def html_tag(rng, name=None, kind=None):
         return "<%s>" % name
     if kind == "close":
         return "</%s%s>" % (name, rng.choice(["", "", " ", "\n"]))
+    attrs = rng.choice(ATTRS) if rng.random() < 0.75 else "".join(num_attr(rng) for _ in range(rng.choice([1, 1, 2])))
     if kind == "self":
-        return "<%s%s/>" % (name, rng.choice(ATTRS))
-    return "<%s%s>" % (name, rng.choice(ATTRS))
+        return "<%s%s/>" % (name, attrs)
+    return "<%s%s>" % (name, attrs)
 
 
 def ext_element(rng, depth, budget):
@@ -111,7 +229,7 @@ def ext_element(rng, depth, budget):
         return "<pages%s />" % rng.choice(PAGES_ATTRS)
     else:
         body = inline(rng, depth + 1, budget // 2) if rng.random() < 0.7 else block(rng, depth + 1, budget // 2)
-    attr = rng.choice(ATTRS) if rng.random() < 0.4 else ""
+    attr = (rng.choice(ATTRS) if rng.random() < 0.75 else num_attr(rng)) if rng.random() < 0.4 else ""
     close = "</%s>" % name if rng.random() < 0.9 else ""
     return "<%s%s>%s%s" % (name, attr, body, close)
 
@@ -200,12 +318,12 @@ def block(rng, depth, budget):
             for _ in range(rng.randint(1, 3)):
                 cells = []
                 for _ in range(rng.randint(1, 3)):
-                    c = rng.choice(["| ", "! ", "| a=b | ", '| style="x" | ', "|\n"]) + (
+                    c = rng.choice(["| ", "! ", "| a=b | ", '| style="x" | ', "|\n", "|%s | " % num_attr(rng, rng.choice(["colspan", "rowspan", "width"]))]) + (
                         inline(rng, depth + 3, b // 4) if rng.random() < 0.8 else "\n" + block(rng, depth + 3, b // 4))
                     cells.append(c)
                 sep = rng.choice(["\n", " || ", " !! "])
-                rows.append(rng.choice(["|-\n", "|- class=x\n", ""]) + sep.join(cells))
-            s = "{|%s\n%s%s\n%s\n" % (rng.choice(["", ' class="wikitable"', " border=1"]), rng.choice(["", "|+ cap\n", "|+ a=b | cap\n"]),
+                rows.append(rng.choice(["|-\n", "|- class=x\n", "", "|-%s\n" % num_attr(rng)]) + sep.join(cells))
+            s = "{|%s\n%s%s\n%s\n" % (rng.choice(["", ' class="wikitable"', " border=1", num_attr(rng, rng.choice(["width", "border", "cellpadding"]))]), rng.choice(["", "|+ cap\n", "|+ a=b | cap\n"]),
                                       "\n".join(rows), rng.choice(["|}", "|}", "|}", ""]))
         elif r == 3 and depth < MAXDEPTH - 4:
             t = rng.choice(["div", "center", "blockquote", "ul", "ol", "dl", "table", "p"])
@@ -350,7 +468,7 @@ def alphabet():
 
 def gen_case(rng, i, maxlen):
     """one search input: dict(raw, lang, db, kind)"""
-    kind = rng.choice(["grammar", "grammar", "grammar", "mutation", "mutation", "soup", "deep", "repeat"])
+    kind = rng.choice(["grammar", "grammar", "grammar", "mutation", "mutation", "soup", "deep", "repeat", "attrs", "quotes"])
     lang = LANGS[i % len(LANGS)]
     db = TEMPLATE_UNIVERSES[rng.randrange(len(TEMPLATE_UNIVERSES))]
     size = rng.choice([20, 60, 150, maxlen]) if maxlen <= 400 else rng.choice([60, 400, 1500, maxlen])
@@ -361,6 +479,12 @@ def gen_case(rng, i, maxlen):
             raw = mutate(rng, block(rng, 0, size), maxlen)
         elif kind == "soup":
             raw = token_soup(rng, maxlen)
+        elif kind == "attrs":
+            raw = attr_case(rng, size)
+        elif kind == "quotes":
+            raw = quote_case(rng, maxlen)
+            if rng.random() < 0.3:
+                raw = block(rng, 0, size // 4) + "\n" + raw
         elif kind == "deep":
             raw = block(rng, 0, size // 4) + deep(rng, rng.choice([5, 20, 39, 40])) + block(rng, 0, size // 4)
         else:
